@@ -209,6 +209,21 @@ Definition valid_thunk (r : crule) (client : bytes -> bool) (v : bytes) : bool :
 Definition valid_thunk_skip_empty (r : crule) (client : bytes -> bool) (v : bytes) : bool :=
   if cr_has_valid r then match v with [] => false | _ => client (copy_n (out_vector v)) end else true.
 
+(* input ids: BuildEngine::kMaximumInputID = ~(uintptr_t)0xFF; BuildEngine::taskNeedsInput rejects ids GREATER than it (error
+   callback, build cancelled).  The provideValue thunk itself has no id guard: whatever id the engine delivers is handed on. *)
+Definition kMaximumInputID : N := 18446744073709551360.
+Definition capi_input_id_ok (id : N) : bool := id <=? kMaximumInputID.
+(* what a task requesting (key, id) through the C interface is eventually shown for it: the id and the value, or nothing
+   when the engine rejects the request *)
+Definition request_then_provide (ectx : ptr) (t : ctask) (ti : c_ti) (key : cdata) (id : N) (value : bytes) : option ccallback :=
+  match forward (CTaskNeedsInput ti key id) with
+  | PRequest ti' key' id' => if capi_input_id_ok id' then backward ectx (BProvideValue t ti' id' key' value) else None
+  | _ => None
+  end.
+(* a hypothetical deviation (NOT the code): the thunk drops deliveries whose id is >= kMaximumInputID (off by one) *)
+Definition backward_provide_guard_ge (ectx : ptr) (t : ctask) (ti : cpp_ti) (id : N) (key value : bytes) : option ccallback :=
+  if kMaximumInputID <=? id then None else backward ectx (BProvideValue t ti id key value).
+
 (* llb_buildengine_build: *result_out = llb_data_t{ result.size(), result.data() } *)
 Definition build_result (v : bytes) : cdata := out_vector v.
 
@@ -235,6 +250,21 @@ Definition view (k : ccallback) : cview :=
   | KInputsAvailable c e ti => VInputsAvailable c e ti
   | KCycleDetected c keys n => VCycleDetected c (firstn (N.to_nat n) (map copy_n keys))
   | KError c m => VError c m
+  end.
+
+(* update_status over a history of notifications for one rule (the rule object lives as long as the engine, across builds): the
+   thunk is stateless, every notification is passed on *)
+Definition status_trace (ectx : ptr) (r : capi_rule) (ss : list N) : list (option cview) :=
+  map (fun s => option_map view (backward ectx (BUpdateStatus r s))) ss.
+(* a hypothetical deviation (NOT the code): only transitions are reported, remembered in the rule object *)
+Fixpoint dedup_statuses (last : option N) (ss : list N) : list N :=
+  match ss with
+  | [] => []
+  | s :: t =>
+    match last with
+    | Some l => if N.eqb l s then dedup_statuses last t else s :: dedup_statuses (Some s) t
+    | None => s :: dedup_statuses (Some s) t
+    end
   end.
 
 (* ------------------------------------------------------------------ serialised form used by the correspondence check *)
